@@ -24,7 +24,11 @@ class Recorder:
             setattr(self.A, nm, f)
 
 
-def build_window(cfg, L):
+def build_window(cfg, L, kw=None):
+    if kw is not None:
+        wu = attrs.user_window(kw, L)
+        if wu is not None:
+            return wu
     wf = cfg["win_func"]
     w = wf(L + 1, cfg["alpha"] * np.pi)[:-1] if cfg.get("alpha") is not None else wf(L)
     return np.asarray(w, float)
@@ -62,7 +66,7 @@ def check_calls(ck, an, r, calls, info, what):
             bad.append("bin %d: starts passed to the kernel are not the plan's D[%d]" % (j, j)); break
         if int(Lc) != L:
             bad.append("bin %d: L=%d passed, plan has %d" % (j, int(Lc), L)); break
-        wexp = build_window(an.config, L)
+        wexp = build_window(an.config, L, info.get("kw") if isinstance(info, dict) else None)
         if not np.array_equal(np.asarray(w), wexp):
             bad.append("bin %d: window passed to the kernel is not the configured window of length %d" % (j, L)); break
         if float(om) != 2.0 * np.pi * float(d["f"][j]) / float(an.fs):
@@ -86,7 +90,7 @@ def reference_bin(an, r, j, info=None):
     L = int(d["L"][j])
     xs = np.asarray(info["x"], float) if info is not None else np.asarray(an.x1, float)
     ys = (np.asarray(info["y"], float) if info is not None else np.asarray(an.x2, float)) if an.iscsd else xs
-    case = dict(N=an.nx, L=L, starts=[int(s) for s in np.asarray(d["D"][j]).ravel()], order=an.config["order"], w=build_window(an.config, L),
+    case = dict(N=an.nx, L=L, starts=[int(s) for s in np.asarray(d["D"][j]).ravel()], order=an.config["order"], w=build_window(an.config, L, info.get("kw") if info is not None else None),
                 omega=2.0 * np.pi * float(d["f"][j]) / float(an.fs), x=xs, y=ys, kinds={})
     ref = K.definition(case, an.iscsd)
     got = (float(d["XX"][j]), float(d["YY"][j]), float(d["XY"][j].real), float(d["XY"][j].imag), float(d["M2"][j]))
